@@ -1082,6 +1082,7 @@ class Silence(Note):
         res = Silence(self.duration, tempo=self.tempo, pedal=self.pedal, tags=set(self.tags))
         res.octave = self.octave
         res.duration = self.duration
+        res.mode, res.accident, res.amp = self.mode, self.accident, self.amp
         return res
 
 
@@ -1100,4 +1101,5 @@ class Continuation(Note):
         res = Continuation(self.duration, pedal=self.pedal, tags=set(self.tags))
         res.octave = self.octave
         res.duration = self.duration
+        res.mode, res.accident, res.amp = self.mode, self.accident, self.amp
         return res
